@@ -4,6 +4,8 @@ import (
 	"context"
 	"errors"
 	"fmt"
+	"math/rand"
+	"sync"
 	"sync/atomic"
 	"time"
 
@@ -17,9 +19,15 @@ import (
 
 const snapshotOffset uint64 = 5000
 
+const (
+	confChangeAttempts   int           = 4
+	confChangeRetryAfter time.Duration = 3 * time.Second
+)
+
 var (
 	ProcessFnAlreadyRegisteredErr  error = errors.New("ProcessFn already registered")
 	SnapshotFnAlreadyRegisteredErr error = errors.New("SnapshotFn already registered")
+	ConfChangeNotAppliedErr        error = errors.New("Configuration change was not applied")
 )
 
 type Group interface {
@@ -50,6 +58,9 @@ type RaftGroup struct {
 	raftLeaderId  uint64
 	wal           wal.WAL
 	log           *log.Entry
+
+	confChangeWaiters   map[uint64]chan struct{}
+	confChangeWaitersMu sync.Mutex
 }
 
 func startRaftNode(id uint64, address string, nodeIds []uint64, storage wal.WAL, logger *log.Entry) (etcdRaft.Node, error) {
@@ -231,6 +242,66 @@ func (this *RaftGroup) ProposeLeave(nodeId uint64) error {
 	return this.raft.ProposeConfChange(this.ctx, cc)
 }
 
+// ProposeJoinAndWait / ProposeLeaveAndWait return once the change has been applied
+// on this node. Proposing alone is no acknowledgement: raft accepts one
+// configuration change at a time and silently drops another one that arrives
+// while the leader has not applied the first, and a proposal is lost with a
+// leader change.
+func (this *RaftGroup) ProposeJoinAndWait(nodeId uint64, address string) error {
+	var cc raftpb.ConfChange
+	cc.Type = raftpb.ConfChangeAddNode
+	cc.NodeID = nodeId
+	cc.Context = []byte(address)
+
+	return this.proposeConfChangeAndWait(cc)
+}
+
+func (this *RaftGroup) ProposeLeaveAndWait(nodeId uint64) error {
+	var cc raftpb.ConfChange
+	cc.Type = raftpb.ConfChangeRemoveNode
+	cc.NodeID = nodeId
+
+	return this.proposeConfChangeAndWait(cc)
+}
+
+func (this *RaftGroup) proposeConfChangeAndWait(cc raftpb.ConfChange) error {
+	// Every attempt carries its own id and any of them being applied will do: a
+	// change that was only slow is then applied more than once, and adding a
+	// member twice or removing it twice changes nothing.
+	applied := make(chan struct{})
+	ids := make([]uint64, 0, confChangeAttempts)
+	defer func() {
+		this.confChangeWaitersMu.Lock()
+		for _, id := range ids {
+			delete(this.confChangeWaiters, id)
+		}
+		this.confChangeWaitersMu.Unlock()
+	}()
+
+	for attempt := 0; attempt < confChangeAttempts; attempt++ {
+		cc.ID = rand.Uint64() | 1
+		ids = append(ids, cc.ID)
+		this.confChangeWaitersMu.Lock()
+		if this.confChangeWaiters == nil {
+			this.confChangeWaiters = make(map[uint64]chan struct{})
+		}
+		this.confChangeWaiters[cc.ID] = applied
+		this.confChangeWaitersMu.Unlock()
+
+		if err := this.raft.ProposeConfChange(this.ctx, cc); err != nil {
+			return err
+		}
+		select {
+		case <-applied:
+			return nil
+		case <-this.ctx.Done():
+			return this.ctx.Err()
+		case <-time.After(confChangeRetryAfter):
+		}
+	}
+	return ConfChangeNotAppliedErr
+}
+
 func (this *RaftGroup) run() {
 	defer close(this.stopped)
 
@@ -341,6 +412,17 @@ func (this *RaftGroup) processConfChange(entry raftpb.Entry) error {
 	}
 
 	this.raftConfState = this.raft.ApplyConfChange(cc)
+
+	this.confChangeWaitersMu.Lock()
+	if applied, exists := this.confChangeWaiters[cc.ID]; exists {
+		select {
+		case <-applied:
+		default:
+			close(applied)
+		}
+		delete(this.confChangeWaiters, cc.ID)
+	}
+	this.confChangeWaitersMu.Unlock()
 	return nil
 }
 
